@@ -1274,8 +1274,8 @@ static void group_findings(Result &total)
     bool inq = c3 == std::string::npos || raw.substr(c3 + 4) == "Q";
     std::string key;
     if (func.size()) key = kind + "@" + func;
-    else if (kind == "seq:survivor-deactivated")
-      key = kind + "@";  // one mechanism whatever the rejected object
+    else if (kind == "seq:survivor-deactivated-after-rejected-bias")
+      key = kind + "@";  // one mechanism whatever the bias type and keyword
     else if (kind.rfind("seq:", 0) == 0)
       key = kind + "@" + label.substr(0, label.find(':'));  // per object type
     else if (kind == "timeout" || kind == "rss-cap" || kind.rfind("abort:", 0) == 0 || kind == "SIGABRT") {
@@ -1345,6 +1345,7 @@ static void group_findings(Result &total)
     std::string sig = "C10:" + best + ":" + kind + (site ? "@" + func : "");
     // hm: seq verdicts are prefixed for readability
     if (kind.rfind("seq:", 0) == 0) sig = "C10:seq:" + best + ":" + kind.substr(4);
+    if (kind == "seq:survivor-deactivated-after-rejected-bias") sig = "C10:seq:survivor-deactivated-after-rejected-bias";
     nc[sig] = g.second.count;
     // detail of the best label
     std::string detail;
@@ -1732,6 +1733,32 @@ int main(int argc, char **argv)
         // ending there are counted without another replay
         r.seen("nontrivial", case_id(c));
         std::string okey = o.kind + "@" + o.func;
+        // 10^6 is the "large but legitimately allocatable" class: when a case that contains it runs into the
+        // allocation or memory cap (e.g. a 10^7 x 36-bin grid = 2.9 GB) that is a large request, not an
+        // unchecked size; the sizes that can never succeed (2^31, 2^63-1, 1e300) stay violations
+        bool has_large = false;
+        for (auto const &m : c.muts)
+          if (m.vclass == "1000000" || m.vclass == "-1000000") has_large = true;
+        // a single request below 1 TiB is one that a large machine can satisfy: a large request whatever the
+        // value class; at or above it (2^63-1 elements, 1e300 ...) it can never succeed and must be rejected
+        bool satisfiable_request = false;
+        if (o.kind == "asan:allocation-size-too-big") {
+          size_t rp = o.report.find("requested allocation size 0x");
+          if (rp != std::string::npos) {
+            unsigned long long req = strtoull(o.report.c_str() + rp + 26, NULL, 16);
+            satisfiable_request = req > 0 && req < (1ULL << 40);
+          }
+        }
+        if (satisfiable_request ||
+            (has_large && (o.kind == "asan:allocation-size-too-big" || o.kind == "asan:out-of-memory" || o.kind == "rss-cap" ||
+                           o.kind == "abort:std::bad_alloc"))) {
+          r.count("large_value_request_above_memory_cap_not_judged");
+          if (!confirmed_has("bigq|" + lab)) {
+            confirmed_add("bigq|" + lab);
+            r.notes.push_back("large but satisfiable request above the memory cap (" + o.kind + " " + o.site + "), not judged: " + case_id(c));
+          }
+          continue;
+        }
         if (o.func.size() && confirmed[okey] >= 2) {
           r.count("abnormal_ends");
           r.count("abnormal_ends_at_confirmed_site_not_replayed");
@@ -1743,7 +1770,7 @@ int main(int argc, char **argv)
           // the long replay of a hang / of a slow large-value case is paid once per label (object type,
           // keyword, value class) over all workers
           if (confirmed_has("slowok|" + lab)) { r.count("slow_with_large_value_completed"); continue; }
-          if (confirmed_has("slowq|" + lab)) { r.count("slow_with_large_value_not_judged_in_quick"); continue; }
+          if (confirmed_has("slowq|" + lab)) { r.count("slow_with_large_value_not_judged"); continue; }
           if (confirmed_has(o.kind + "|" + lab)) {
             r.count("abnormal_ends");
             r.count("abnormal_ends_at_confirmed_site_not_replayed");
@@ -1759,10 +1786,7 @@ int main(int argc, char **argv)
         if (o2.kind == "timeout") {
           // the legitimately large value 10^6 may simply take long (e.g. a 10^7-bin grid written out): it is a
           // hang only if it does not end with ten times the limit either (thorough tier; not judged in quick)
-          bool large_only = true;
-          for (auto const &m : c.muts)
-            if (m.vclass != "1000000" && m.vclass != "-1000000") large_only = false;
-          if (large_only) {
+          if (has_large) {
             if (!thorough) {
               r.count("slow_with_large_value_not_judged_in_quick");
               confirmed_add("slowq|" + lab);
@@ -1775,6 +1799,13 @@ int main(int argc, char **argv)
               r.count("slow_with_large_value_completed");
               confirmed_add("slowok|" + lab);
               r.notes.push_back("slow with the large value but completed in " + std::to_string((int) o3.secs) + " s: " + case_id(c));
+              continue;
+            }
+            if (o3.kind == "timeout") {
+              // work proportional to a 10^6-sized object that does not end within 400 s of CPU: large, not judged
+              r.count("large_value_not_finished_in_400s_not_judged");
+              confirmed_add("slowq|" + lab);
+              r.notes.push_back("large value: not finished within " + std::to_string((int) (10 * T_RETRY)) + " s of CPU, not judged: " + case_id(c));
               continue;
             }
             o2 = o3;
@@ -2061,6 +2092,11 @@ int main(int argc, char **argv)
           continue;
         }
         std::string what = verdict.substr(0, verdict.find(' '));
+        // known mechanism (C13): deleting a bias, here the rejected one, releases the only reference to its
+        // variables' "active" feature.  All occurrences, whatever the bias type and keyword, are one signature.
+        Mut const &mb = c.muts.back();
+        bool b_is_bias = !mb.path.empty() && lower(BASES[c.base].tree.kids[mb.path[0]].key) != "colvar";
+        if (what == "survivor-deactivated" && b_is_bias) what = "survivor-deactivated-after-rejected-bias";
         r.violation(raw_sig(lab, "seq:" + what, "", !thorough), det(verdict));
       }
     }, r3, 7000);
